@@ -225,17 +225,19 @@ impl WTClient {
         receipt: &AppointmentReceipt,
     ) {
         if let Some(tower) = self.towers.get_mut(&tower_id) {
-            // DISCUSS: It may be nice to independently compute the slots and compare
-            tower.available_slots = available_slots;
-
-            // The receipt may be there already (e.g. lightningd notified the same revocation twice)
-            if let Err(e) = self.dbm.store_appointment_receipt(
+            // The receipt and the slot count are stored together. The receipt may be there already (e.g. lightningd notified
+            // the same revocation twice): then nothing is stored and the slot count we report stays the stored one.
+            match self.dbm.store_appointment_receipt(
                 tower_id,
                 locator,
                 available_slots,
                 receipt,
             ) {
-                log::warn!("Appointment receipt for {locator} not stored for {tower_id}. Error: {e:?}");
+                // DISCUSS: It may be nice to independently compute the slots and compare
+                Ok(_) => tower.available_slots = available_slots,
+                Err(e) => log::warn!(
+                    "Appointment receipt for {locator} not stored for {tower_id}. Error: {e:?}"
+                ),
             }
         } else {
             log::error!("Cannot add appointment receipt to tower. Unknown tower_id: {tower_id}");
